@@ -17,6 +17,6 @@ for pid in ids:
                 shutil.copy(os.path.join(d, f), os.path.join(dst, f))
         m = json.load(open(os.path.join(dst, 'meta.json')))
         m['property'] = pid
-        m['wave'] = 6
+        m['wave'] = int(os.environ.get('SEED_WAVE', '6'))
         json.dump(m, open(os.path.join(dst, 'meta.json'), 'w'), indent=1)
         print('imported', dst)
